@@ -783,6 +783,7 @@ COPY_PROPS = {"C11": FUNC + FRAME + ["loop"], "C06": FUNC + FRAME + SAFETY, "C13
 
 def COPY(kind, extra_defs=(), replace=(), loops=None, covers=2, **kw):
     kw.setdefault("replay", "copy_oracle")
+    kw.setdefault("loop_fingerprint", {"cbor_copy": 4})   # a new loop in cbor_copy -> degraded bounded mode, not a timeout
     P(name="copy_" + kind.lower() + kw.pop("suffix", ""), props=dict(COPY_PROPS), lib=COPYLIB, stubs=COPY_STUBS, contracts=COPY_CONTRACTS,
       harness="harness/copy.c", defines=["COPY_KIND_" + kind, "CBOR_PRETTY_PRINTER_OFF"] + list(extra_defs), enforce=None,
       also_verified=["cbor_copy", "_cbor_copy_int", "_cbor_copy_float_ctrl"], twins={"cbor_copy": "cbor_copy__child"},
